@@ -186,6 +186,14 @@ def check_chain(types, gset, npts, res):
             msgs.append("chain %s: table built one grid per call (systems referenced by id) differs from the single-call table" % (types,))
         import pandas as pd
 
+        k0 = next((i for i, ci in enumerate(cin) if not isinstance(ci, int)), None)
+        if k0 is not None and all(not isinstance(ci, int) for ci in cin[k0:]):
+            # coordinate systems handed over as one stacked (n, 4, 3) array (sequence whose items are created on access)
+            stack = np.array([np.asarray(ci, float) for ci in cin[k0:]])
+            u4 = n2p.addgrid(None, gids[k0:], sets[k0:], stack, xyz[k0:], stack, {})
+            a4 = uset.values.astype(float)[6 * k0 :]
+            if u4.shape[0] != a4.shape[0] or not np.allclose(u4.values.astype(float), a4, rtol=0, atol=1e-12 * max(1.0, np.abs(a4).max())):
+                msgs.append("chain %s: coordinate systems passed as a stacked (n,4,3) array give a different table than a list of 4x3 matrices" % (types,))
         u3 = pd.concat(parts, axis=0)
         c = u3.values.astype(float)
         if a.shape != c.shape or not np.allclose(a, c, rtol=0, atol=1e-12 * max(1.0, np.abs(a).max())):
@@ -194,6 +202,24 @@ def check_chain(types, gset, npts, res):
             msgs.append("chain %s: coordref holds systems %s after the calls, defined were %s" % (types, sorted(cref2), sorted(int(d[0, 0]) for d in defs)))
     except Exception as e:  # noqa
         msgs.append("chain %s: incremental addgrid calls raised %r" % (types, e))
+    # several grids per query, listed in an order different from the table order
+    for yi, Y in enumerate(allsys):
+        ydef = 0 if Y.cid == 0 else defs[yi - 1]
+        idl = [t[0] for t in truth]
+        for order_name, ids_q in (("reversed", idl[::-1]), ("shuffled", idl[1::2] + idl[0::2]), ("subset", idl[2::3][::-1] + idl[:1])):
+            try:
+                with warnings.catch_warnings():
+                    warnings.simplefilter("ignore")
+                    Q = n2p.getcoordinates(uset, ids_q, ydef if order_name != "shuffled" else Y.cid)
+            except Exception as e:  # noqa
+                msgs.append("chain %s: getcoordinates(list of ids, %s order) raised %r" % (types, order_name, e))
+                continue
+            Q = np.atleast_2d(Q)
+            for row, gq in zip(Q, ids_q):
+                pbq = [t[2] for t in truth if t[0] == gq][0]
+                if not same_point(row, Y.from_basic(pbq), Y.typ, 1e-8):
+                    msgs.append("chain %s: getcoordinates(%s id list) row for grid %d is %s, that grid is at %s in system %d" % (types, order_name, gq, row.tolist(), Y.from_basic(pbq).tolist(), Y.cid))
+                    break
     for gidx, X, pb, ploc in truth:
         got = uset.loc[(gidx, 1), "x":"z"].values.astype(float)
         if not np.allclose(got, pb, rtol=0, atol=1e-9 * max(1.0, np.abs(pb).max())):
@@ -305,6 +331,8 @@ def check_rbe3(res):
             "123456-3": [123456, [100, 300, 500]],
             "mixed": [123, [100, 200, 300], 123456, [400], [12, 1.0], [500]],
             "weights": [[123, 1.0], [100, 200], [123, 2.0], [300], [123456, 0.5], [400, 500]],
+            "digits-desc": [321, [100, 200, 300], 6415, [400]],
+            "node-twice": [456, [100], 123, [100, 200], [3, 2.0], [300], 12, [300]],
         }
         ums = {"none": None, "um-indep": [100, 123, 200, 23, 300, 3], "um-mixed": [600, 123, 100, 12, 300, 3]}
         for (iname, il), (uname, um), ddof in itertools.product(inds.items(), ums.items(), (123456, 123)):
